@@ -99,8 +99,18 @@ class HierCase(object):
                 pm.fix_parameters({names[i]: float(top[i]) for i in idx})
                 self.free_top[idx] = False
         self.pm = pm
+        cov_arg = self.cov
+        self.unneeded_covariates = False
+        if self.h.n_cov == 0 and rng.random() < 0.25:
+            # covariates are an optional argument: a model that needs none
+            # ignores them (array, nested list or one row per individual)
+            cov_arg = rng.uniform(0.5, 2, size=(self.n_ids, int(
+                rng.integers(1, 3))))
+            if rng.random() < 0.5:
+                cov_arg = cov_arg.tolist()
+            self.unneeded_covariates = True
         self.hl = chi.HierarchicalLogLikelihood(
-            lls, pm, covariates=self.cov)
+            lls, pm, covariates=cov_arg)
         self.obj = self.hl
         self.prior = None
         if self.posterior:
@@ -217,6 +227,8 @@ class HierCase(object):
                 'bare': len(self.leaves) == 1,
                 'nested_wrappers': self.nest is not None,
                 'id_style': self.id_style,
+                'unneeded_covariates': getattr(
+                    self, 'unneeded_covariates', False),
                 'fixed_top': bool(np.any(~self.free_top))}
 
 
